@@ -57,6 +57,8 @@ def attribute(run, line, verdict):
     if scn == "switch":
         # a context restored wrongly usually ends in a crash
         return "C11+C02" if verdict.startswith("crash") else "C11"
+    if scn == "replace":
+        return "C01+C06+C11"      # the caller or another unit is lost / the stream cannot be joined after set_main_sched
     if scn == "ryt":
         return "C02+C11"          # resume_yield_to with the yielder's pool served by other streams
     if scn == "xjoin":
@@ -102,6 +104,17 @@ def attribute(run, line, verdict):
     return "C01"
 
 
+def sched_stop_model(chk):
+    """Level B: the stop test of a joined stream's scheduler against resume_and_push (C01, C06)"""
+    d = os.path.join(VERIF, "spec", "core")
+    vlib.tlc_check(chk, "SchedStop: stop test (is_empty, num_blocked, twice) vs suspend / resume_and_push as coded, exhaustive",
+                   os.path.join(d, "SchedStop.tla"), os.path.join(d, "SchedStopMC.cfg"), timeout=600)
+    r = vlib.tlc_check(chk, "SchedStop with decrement-before-push (must be violated)", os.path.join(d, "SchedStop.tla"),
+                       os.path.join(d, "SchedStopDecFirst.cfg"), timeout=300, expect="violation")
+    if not r["violated"]:
+        raise vlib.Broken("the decrement-first variant of SchedStop is not rejected: the invariants are vacuous")
+
+
 def run_exec(pid, tier, seed, emphasis, scns=("exec",), pre=None):
     chk = vlib.Check(pid, tier, seed)
     quick = tier == "quick"
@@ -127,7 +140,9 @@ def run_exec(pid, tier, seed, emphasis, scns=("exec",), pre=None):
                     continue
                 if scn == "ryt" and (cfg != 4 or nes < 2):
                     continue
-                for off in range(0, n * (6 if scn == "ryt" else 1), per):
+                if scn == "replace" and (cfg or nes):
+                    continue
+                for off in range(0, n * (6 if scn in ("ryt", "replace") else 1), per):
                     jobs.append(dict(exe=exe, scn=scn, seed0=seed * 1000000 + emphasis * 100000 + 1 + off,
                                      count=per, opts=("nes=%d" % nes, "cfg=%d" % cfg),
                                      env={"ABTV_BUDGET": "400000"}))
